@@ -119,6 +119,11 @@ M = {
                                          'the safety scan looks at the ArrayFormula object instead of its text (the repaired defect)'),
     'c03-entry-cell-not-refilled': ('C03', [(SRC + 'utilities/parser.py', "CellTranslator.translate(excel.fill_cell(copy(self._entrypoint_cell)), excel, context)", "CellTranslator.translate(copy(self._entrypoint_cell), excel, context)")],
                                     'an entry Cell handed out by an Executor is registered as its computed constant (the repaired defect)'),
+    'c06-column-code-int': ('C06', [(SRC + 'translators/column_cc_token_translator.py', "return str(token.in_cell.column + 1)", "return token.in_cell.column + 1")],
+                            'COLUMN() emits an int as code: =SUM(COLUMN(),1) ends translation with TypeError (the repaired defect)'),
+    'c15-date-only-rejected': ('C15', [(CTX, "        start_date = self._at_midnight(start_date)\n        if not isinstance(start_date, datetime.datetime):\n            return '#VALUE!'", "        if not isinstance(start_date, datetime.datetime):\n            return '#VALUE!'"),
+                                       (ABS, "        start_date = self._at_midnight(start_date)\n        if not isinstance(start_date, datetime.datetime):\n            return '#VALUE!'", "        if not isinstance(start_date, datetime.datetime):\n            return '#VALUE!'")],
+                               'EDATE rejects date-only values again (the repaired defect)'),
     'c01-amp-precedence': ('C01', [(SRC + 'translators/expression_token_translator.py', "AmpersandToken: 2,", "AmpersandToken: 3,")], '& binds as tightly as + -'),
     'c03-area-cells-not-registered': ('C03', [(SRC + 'translators/matrix_of_cell_identifiers_token_translator.py', "CellTranslator.translate(j, excel, context) for j in i",
                                                "(CellTranslator.translate(j, excel, context) if excel.fill_cell(j).column < 3 else context._get_cell_with_cell_preprocessor(j.uid)) for j in i")],
